@@ -208,6 +208,10 @@ def plan(tier, seed):
     tasks.append(('plain', F, {'family': 'cycfront', 'L': 2, 'shard': 0, 'nshard': 1, 'with_cfg': False}))
     add(1, 1, 1, 3, 3, 1, stack=['γ'], scheme='u')
     add(2, 1, 1, 2, 3, 4, stride=4, stack=['Z0'], scheme='g')
+    # wave 7: state names M2, M3 (the generated prefix with a gap below it) on automata with up to three moves that neither push nor pop
+    add(1, 1, 1, 3, 3, 1, scheme='G')
+    add(2, 1, 1, 2, 3, 4, scheme='G', with_cfg=False)
+    add(2, 1, 1, 3, 3, 16, stride=4 if tier == 'quick' else 1, tmin=3, scheme='G', with_cfg=False)
     base = list(tasks)
     for kn in ({'dorder': 'aq'}, {'dorder': 'rev'}):
         tasks += common.knob_copies(base, lambda name, p: name.endswith('t_space') and p['n'] == 1 or (name.endswith('t_family') and p['family'] == 'multichar'), kn)
@@ -221,7 +225,7 @@ def plan(tier, seed):
         add(2, 1, 1, 2, 3, 8, stride=4, stack=['∅'])
         add(3, 1, 1, 2, 3, 8, stride=2, fbits=[7], with_cfg=False)
         add(3, 1, 1, 2, 3, 8, stride=16, fbits=[7])
-        bounds = 'replace family (one push, two replace moves into one state, one pop; 2 stack symbols, 2 letters) stride 1/4 (with PDA->CFG); PDA(1,1,1,<=3) all variants; PDA(2,1,1,<=2) all; PDA(2,1,1,3) stride 1/16 (1/4 without PDA->CFG); PDA(2,2,1,<=2), PDA(2,1,2,<=2) stride 1/8; Gamma containing $ / ∅, state names q_accept/q_initial/M1; PDA(3,1,1,<=2) with |F|=3; languages on words <= 4 (k=1) / 3'
+        bounds = 'replace family (one push, two replace moves into one state, one pop; 2 stack symbols, 2 letters) stride 1/4 (with PDA->CFG); PDA(1,1,1,<=3) all variants; PDA(2,1,1,<=2) all; PDA(2,1,1,3) stride 1/16 (1/4 without PDA->CFG); PDA(2,2,1,<=2), PDA(2,1,2,<=2) stride 1/8; Gamma containing $ / ∅, state names q_accept/q_initial/M1 and M2/M3 (gap below), PDA(2,1,1,3) stride 1/4 under the latter; PDA(3,1,1,<=2) with |F|=3; languages on words <= 4 (k=1) / 3'
     else:
         add(2, 1, 1, 3, 4, 128, with_cfg=False)
         add(2, 1, 1, 3, 4, 128, stride=4)
@@ -231,7 +235,7 @@ def plan(tier, seed):
         add(2, 1, 1, 3, 3, 32, stride=4, stack=['$'], scheme='p')
         add(2, 1, 1, 3, 3, 32, stride=4, stack=['∅'])
         add(3, 1, 1, 2, 3, 32, fbits=[7, 5, 3])
-        bounds = 'replace family all (30 720); PDA(2,1,1,<=3) all (PDA->CFG on stride 1/4); PDA(2,2,1,<=2) (PDA->CFG 1/2), PDA(2,1,2,<=2); Gamma with $ / ∅ and colliding state names stride 1/4; PDA(3,1,1,<=2) with |F| in {2,3}'
+        bounds = 'replace family all (30 720); PDA(2,1,1,<=3) all (PDA->CFG on stride 1/4); PDA(2,2,1,<=2) (PDA->CFG 1/2), PDA(2,1,2,<=2); Gamma with $ / ∅ and colliding state names stride 1/4; names M2/M3 on all of PDA(2,1,1,<=3); PDA(3,1,1,<=2) with |F| in {2,3}'
     return {'tasks': tasks, 'bounds': {'spaces': bounds}, 'exhaustive': True,
             'rule': 'every labelled PDA in the bounds x {single accepting state, push/pop form, accept on empty stack, PDA->CFG (and with accepts_on_empty_stack=True when the oracle shows the precondition)}; languages by saturation (PDA) / least fixpoint (CFG) on all words up to L; non-trivial = PDA with non-empty language that accepts with a non-empty stack',
             'assumptions': ['CFG/PDA equivalence compared on all words up to the stated length', 'delta is a defaultdict(set) as built by the parser', 'wave 5: counters written as PDAs with 12-14 moves that neither push nor pop (12+ generated intermediate states), stack symbols of several characters (A, B, AB / Z0, Z, 0) and outside latin-1 (constructor-built PDAs), coprime push/pop epsilon cycles with <= 3 states each, transition dict filled in other orders; every name is an equal but distinct str object']}
